@@ -9,7 +9,6 @@ import (
 
 	"rscheck/cfgq"
 	"rscheck/core"
-	"rscheck/pat"
 )
 
 // bound is what a payload checker demands of the trailer version.
@@ -111,274 +110,6 @@ func constInt(v *types.Const) (int64, bool) {
 // ---------------------------------------------------------------------------
 // R3 Loader.Footer
 
-func footer(e *env) {
-	c := e.c
-	newLoader := c.Func(pkgRdb, "", "NewLoader")
-	foot := c.Func(pkgRdb, "Loader", "Footer")
-	if newLoader == nil || foot == nil {
-		return
-	}
-	info := foot.Pkg.TypesInfo
-	// the digest whose Sum64 Footer compares
-	var teeField *types.Var
-	for _, call := range core.Calls(foot.Decl.Body, info, func(call *ast.CallExpr, o types.Object) bool { return o != nil && o.Name() == "Sum64" }) {
-		if sel, ok := ast.Unparen(call.Fun).(*ast.SelectorExpr); ok {
-			teeField = core.FieldOf(info, sel.X)
-		}
-	}
-	if teeField == nil {
-		c.Undecidedf("R3.footer", "NewLoader/tee-digest", foot.Decl.Pos(), "Footer does not take Sum64 of a digest field")
-		return
-	}
-	// it is a sink of the TeeReader the loader reads from, and comes from a checked constructor
-	teeToReader, fromNew, fed := false, false, false
-	for _, fn := range funcsOf(foot.Pkg) {
-		ast.Inspect(fn.Decl.Body, func(n ast.Node) bool {
-			if call, ok := n.(*ast.CallExpr); ok {
-				for _, a := range call.Args {
-					if core.FieldOf(info, a) == teeField {
-						fed = true
-					}
-				}
-				if sel, ok := ast.Unparen(call.Fun).(*ast.SelectorExpr); ok && core.FieldOf(info, sel.X) == teeField && sel.Sel.Name != "Sum64" {
-					fed = true
-				}
-			}
-			return true
-		})
-	}
-	ast.Inspect(newLoader.Decl.Body, func(n ast.Node) bool {
-		as, ok := n.(*ast.AssignStmt)
-		if !ok || len(as.Lhs) != 1 || len(as.Rhs) != 1 {
-			return true
-		}
-		lf := core.FieldOf(info, as.Lhs[0])
-		for _, call := range core.Calls(as.Rhs[0], info, func(call *ast.CallExpr, o types.Object) bool {
-			f, _ := o.(*types.Func)
-			return core.IsFunc(f, "io", "", "TeeReader") && len(call.Args) == 2
-		}) {
-			if core.FieldOf(info, call.Args[1]) == teeField && lf != nil {
-				teeToReader = true
-			}
-		}
-		if lf == teeField {
-			if call, ok := ast.Unparen(as.Rhs[0]).(*ast.CallExpr); ok && e.isNew(core.CalleeFunc(info, call)) {
-				fromNew = true
-			}
-		}
-		return true
-	})
-	switch {
-	case teeToReader && fromNew:
-		c.Okf("R3.footer", "NewLoader/tee-digest", newLoader.Decl.Pos(), "every byte the loader reads is tee'd into field %s, a digest from a constructor checked under R2", teeField.Name())
-	case !fed:
-		c.Failf("R3.footer", "NewLoader/tee-digest", newLoader.Decl.Pos(), "the digest field %s whose Sum64 Footer compares is never fed (no TeeReader/Write uses it): its value stays 0, so every intact RDB with a non-zero CRC is rejected and the check detects nothing", teeField.Name())
-		return
-	default:
-		c.Undecidedf("R3.footer", "NewLoader/tee-digest", newLoader.Decl.Pos(), "cannot see the loader reading through io.TeeReader(r, <digest field>) with a digest from a checked constructor")
-		return
-	}
-	g := cfgq.Of(c.Program, foot)
-	isSum := g.HasCall(func(call *ast.CallExpr, o types.Object) bool {
-		sel, ok := ast.Unparen(call.Fun).(*ast.SelectorExpr)
-		return ok && o != nil && o.Name() == "Sum64" && core.FieldOf(info, sel.X) == teeField
-	})
-	isRead := g.HasCall(func(call *ast.CallExpr, o types.Object) bool {
-		f, _ := o.(*types.Func)
-		if f == nil {
-			return false
-		}
-		sig := f.Type().(*types.Signature)
-		if sig.Recv() == nil {
-			return false
-		}
-		rn := core.NamedTypeName(sig.Recv().Type())
-		return f.Pkg() == foot.Obj.Pkg() && (rn == "Loader" || rn == "rdbReader")
-	})
-	sums, reads := g.Points(isSum), g.Points(isRead)
-	if len(sums) != 1 || len(reads) != 1 {
-		c.Undecidedf("R3.footer", "Footer/skeleton", foot.Decl.Pos(), "expected one Sum64 of the tee'd digest and one trailer read in Footer, found %d and %d", len(sums), len(reads))
-		return
-	}
-	dom, w := g.Dominated(reads[0], isSum)
-	c.Check("R3.footer", "Footer/sum-before-read", reads[0].Node().Pos(), dom,
-		"Sum64 must be taken before the trailer is read: the read passes the 8 checksum bytes through the tee into the digest, so a Sum64 taken afterwards is the CRC of data+trailer and never equals the stored CRC (every intact RDB is rejected)", w...)
-	sumAs, ok1 := sums[0].Node().(*ast.AssignStmt)
-	readAs, ok2 := reads[0].Node().(*ast.AssignStmt)
-	if !ok1 || !ok2 || len(sumAs.Lhs) != 1 || len(readAs.Lhs) != 2 {
-		c.Undecidedf("R3.footer", "Footer/mismatch-rejected", foot.Decl.Pos(), "Sum64 / trailer read are not bound to variables")
-		return
-	}
-	// the trailer read is 8 bytes little-endian
-	if rc := cfgq.ExecCalls(readAs); len(rc) > 0 {
-		if rf := c.FnOf(core.CalleeFunc(info, rc[len(rc)-1])); rf != nil {
-			le64(c, rf)
-		}
-	}
-	bd := pat.Binds{"_a": sumAs.Lhs[0], "_b": readAs.Lhs[0], "_err": readAs.Lhs[1]}
-	same := func(x, y ast.Expr) bool { return pat.Same(info, strip(info, x), strip(info, y)) }
-	// established: +1 if the fact establishes computed == stored, -1 if it
-	// establishes that they differ; a one-line boolean helper is looked through.
-	var outer map[types.Object]ast.Expr // parameters of a helper the verdict is delegated to -> Footer's arguments
-	established := func(f cfgq.Fact) int {
-		atoms := []cfgq.Fact{f}
-		subst := func(x ast.Expr) ast.Expr {
-			if a, ok := outer[objOf(info, strip(info, x))]; ok {
-				return a
-			}
-			return x
-		}
-		if call, ok := ast.Unparen(f.Expr).(*ast.CallExpr); ok {
-			if ret, args := predBody(c, foot, call); ret != nil {
-				atoms = cfgq.Facts(ret, f.Val)
-				prev := subst
-				subst = func(x ast.Expr) ast.Expr {
-					if a, ok := args[objOf(info, strip(info, x))]; ok {
-						return prev(a)
-					}
-					return prev(x)
-				}
-			}
-		}
-		for _, a := range atoms {
-			be, ok := ast.Unparen(a.Expr).(*ast.BinaryExpr)
-			if !ok || be.Op != token.EQL && be.Op != token.NEQ {
-				continue
-			}
-			l, r := subst(be.X), subst(be.Y)
-			if same(l, sumAs.Lhs[0]) && same(r, readAs.Lhs[0]) || same(l, readAs.Lhs[0]) && same(r, sumAs.Lhs[0]) {
-				if (be.Op == token.EQL) == a.Val {
-					return 1
-				}
-				return -1
-			}
-		}
-		return 0
-	}
-	eq := func(f cfgq.Fact) bool { return established(f) == 1 }
-	neq := func(f cfgq.Fact) bool { return established(f) == -1 }
-	noErr := func(f cfgq.Fact) bool {
-		return f.Val && pat.Expr("_err == nil").Match(info, f.Expr, bd) != nil || !f.Val && pat.Expr("_err != nil").Match(info, f.Expr, bd) != nil
-	}
-	// success exits: `return nil`, or `return h(...)` where the same-package
-	// helper h decides (its own `return nil`s are then judged in h, with h's
-	// parameters standing for the arguments)
-	type exit struct {
-		at     cfgq.Point // in Footer
-		hg     *cfgq.Graph
-		hp     cfgq.Point // in the helper (if hg != nil)
-		params map[types.Object]ast.Expr
-	}
-	var exits []exit
-	for _, p := range g.Points(func(n ast.Node) bool { _, ok := n.(*ast.ReturnStmt); return ok }) {
-		r := p.Node().(*ast.ReturnStmt)
-		if isNilRet(info)(r) {
-			exits = append(exits, exit{at: p})
-			continue
-		}
-		if len(r.Results) != 1 {
-			continue
-		}
-		call, ok := ast.Unparen(r.Results[0]).(*ast.CallExpr)
-		hfn := core.CalleeFunc(info, orCall(call))
-		if !ok || hfn == nil || hfn.Pkg() != foot.Obj.Pkg() {
-			continue
-		}
-		hf := c.FnOf(hfn)
-		ps := hfn.Type().(*types.Signature).Params()
-		if hf == nil || hf.Decl.Body == nil || ps.Len() != len(call.Args) {
-			continue
-		}
-		args := map[types.Object]ast.Expr{}
-		for i := 0; i < ps.Len(); i++ {
-			args[ps.At(i)] = call.Args[i]
-		}
-		hg := cfgq.Of(c.Program, hf)
-		for _, hp := range hg.Points(isNilRet(info)) {
-			exits = append(exits, exit{at: p, hg: hg, hp: hp, params: args})
-		}
-	}
-	if len(exits) == 0 {
-		c.Undecidedf("R3.footer", "Footer/mismatch-rejected", foot.Decl.Pos(), "Footer has no success return")
-		return
-	}
-	for _, x := range exits {
-		p := x.at
-		via := func(m func(cfgq.Fact) bool) (bool, []string) {
-			if x.hg == nil {
-				return onlyVia(g, p, m)
-			}
-			if ok, w := onlyVia(g, p, m); ok { // already established before the helper is called
-				return ok, w
-			}
-			outer = x.params
-			defer func() { outer = nil }()
-			return onlyVia(x.hg, x.hp, m)
-		}
-		ok, w := via(eq)
-		switch inv, _ := via(neq); {
-		case ok:
-			c.Okf("R3.footer", "Footer/mismatch-rejected", p.Node().Pos(), "Footer succeeds only when the computed CRC equals the stored one")
-		case inv:
-			c.Check("R3.footer", "Footer/mismatch-rejected", p.Node().Pos(), false, "Footer succeeds exactly when the computed and stored CRC DIFFER: every intact RDB is rejected, corrupted ones accepted")
-		case uses(info, foot.Decl.Body, objOf(info, readAs.Lhs[0])) == 0 || uses(info, foot.Decl.Body, objOf(info, sumAs.Lhs[0])) == 0:
-			c.Check("R3.footer", "Footer/mismatch-rejected", p.Node().Pos(), false, "the computed CRC is never compared with the stored one: an RDB with any corrupted byte is accepted", w...)
-		default:
-			c.Undecidedf("R3.footer", "Footer/mismatch-rejected", p.Node().Pos(), "cannot see that success is returned only when the two CRC values are equal")
-		}
-		if ok2, _ := onlyVia(g, p, noErr); ok2 {
-			c.Okf("R3.footer", "Footer/read-error-rejected", p.Node().Pos(), "a failed/short trailer read fails the footer check")
-		} else {
-			c.Undecidedf("R3.footer", "Footer/read-error-rejected", p.Node().Pos(), "cannot see that a failed trailer read fails the footer check")
-		}
-	}
-}
-
-func uses(info *types.Info, root ast.Node, o types.Object) int {
-	n := 0
-	ast.Inspect(root, func(m ast.Node) bool {
-		if id, ok := m.(*ast.Ident); ok && o != nil && info.Uses[id] == o {
-			n++
-		}
-		return true
-	})
-	return n
-}
-
-// le64: the reader helper reads 8 bytes and decodes them little-endian.
-func le64(c *core.Ctx, fn *core.Fn) {
-	info := fn.Pkg.TypesInfo
-	key := "Footer/trailer-le64"
-	for _, call := range core.Calls(fn.Decl.Body, info, func(call *ast.CallExpr, _ types.Object) bool {
-		_, ok := byteOrder(info, call, "Uint64")
-		return ok
-	}) {
-		order, _ := byteOrder(info, call, "Uint64")
-		buf := origin(info, fn.Decl.Body, call.Args[0])
-		n := int64(-1)
-		if se, ok := buf.(*ast.SliceExpr); ok && se.High != nil {
-			lo := int64(0)
-			if se.Low != nil {
-				lo, _ = core.IntConst(info, se.Low)
-			}
-			if hi, ok := core.IntConst(info, se.High); ok {
-				n = hi - lo
-			}
-		}
-		filled := len(core.Calls(fn.Decl.Body, info, func(rc *ast.CallExpr, o types.Object) bool {
-			return o != nil && o.Name() == "readFull" && len(rc.Args) == 1 && pat.Same(info, strip(info, rc.Args[0]), strip(info, call.Args[0]))
-		})) == 1
-		if n < 0 || !filled {
-			c.Undecidedf("R3.footer", key, call.Pos(), "cannot see that %s fills exactly the decoded 8 bytes", fn.Obj.Name())
-			return
-		}
-		c.Check("R3.footer", key, call.Pos(), order == "LittleEndian" && n == 8,
-			fmt.Sprintf("the stored CRC must be read as 8 bytes little-endian (found binary.%s over %d bytes): otherwise it never equals the digest of an intact file", order, n))
-		return
-	}
-	c.Undecidedf("R3.footer", key, fn.Decl.Pos(), "%s does not decode with binary.<order>.Uint64", fn.Obj.Name())
-}
-
 // ---------------------------------------------------------------------------
 // R3 payload verifiers
 
@@ -399,10 +130,12 @@ type rng struct{ la, lb, ha, hb int64 }
 // helperSum summarises a same-package helper f(d) that cuts the payload into
 // pieces and reports with a boolean whether it was long enough.
 type helperSum struct {
-	views map[int]rng // result index -> piece, on the returns whose flag (if any) is true
-	okIdx int         // index of the "long enough" flag, -1 if the helper has none
-	okMin int64       // flag true (or: helper returned) => len(d) >= okMin
-	needs bool        // the helper slices without testing the length itself: its call must be guarded
+	views map[int]rng    // result index -> piece, on the returns whose flag (if any) is true
+	okIdx int            // index of the "long enough" flag, -1 if the helper has none
+	okMin int64          // flag true (or: helper returned) => len(d) >= okMin
+	needs bool           // the helper slices without testing the length itself: its call must be guarded
+	vals  map[int]string // result index -> "ver" | "crc" | "dig": the helper decodes / digests itself and returns the value
+	acc   []access       // the helper's own role-playing reads of the payload (offsets in the same coordinates)
 }
 
 // tupleDef: o is defined exactly once, as the idx-th result of a call.
@@ -517,10 +250,56 @@ func (v *verif) summary(call *ast.CallExpr) *helperSum {
 			sum.okMin = k
 		}
 	}
+	// results that are values decoded / digested inside the helper
+	subAcc := sub.accesses()
+	sum.vals = map[int]string{}
+	for _, p := range trues {
+		r := p.Node().(*ast.ReturnStmt)
+		for i, res := range r.Results {
+			if _, isSlice := sub.info.TypeOf(res).Underlying().(*types.Slice); isSlice || i == sum.okIdx {
+				continue
+			}
+			e := res
+			if o := objOf(sub.info, strip(sub.info, res)); o != nil { // possibly a named result assigned once
+				e = origin(sub.info, hf.Decl.Body, res)
+			}
+			for _, a := range subAcc {
+				if a.call == nil && a.kind != "ver-lo" && a.kind != "ver-hi" {
+					continue
+				}
+				hit := false
+				ast.Inspect(e, func(n ast.Node) bool {
+					if a.call != nil && n == ast.Node(a.call) || a.call == nil && n == ast.Node(a.e) {
+						hit = true
+					}
+					return true
+				})
+				if hit {
+					switch a.kind {
+					case "ver-slice", "ver-lo", "ver-hi":
+						sum.vals[i] = "ver"
+					case "crc-slice":
+						sum.vals[i] = "crc"
+					case "covered":
+						sum.vals[i] = "dig"
+					case "bad", "unknown":
+						if _, set := sum.vals[i]; !set {
+							sum.vals[i] = "?"
+						}
+					}
+				}
+			}
+		}
+	}
+	for _, a := range subAcc {
+		if a.kind != "other" {
+			sum.acc = append(sum.acc, a)
+		}
+	}
 	// the helper's own slicing is protected by its own test, or the helper
 	// relies on its caller ("the caller guarantees len(d) >= ..."): then the call
 	// itself is an access that the caller's guard has to dominate
-	for _, a := range sub.accesses() {
+	for _, a := range subAcc {
 		p, found := sub.g.Find(a.e)
 		if !found {
 			return nil
@@ -690,6 +469,8 @@ func (v *verif) accesses() []access {
 			role = "crc-slice"
 		} else if v.e.isDigest(core.CalleeFunc(v.info, call)) {
 			role = "covered"
+		} else if v.hashObject(call) != nil {
+			role = "covered" // h := crc64.New(); h.Write(piece); ... h.Sum64()
 		}
 		if role == "" {
 			return true
@@ -803,10 +584,35 @@ func verifier(e *env, fn *core.Fn) {
 	}
 	v := &verif{e: e, fn: fn, info: fn.Pkg.TypesInfo, d: sig.Params().At(0), g: cfgq.Of(c.Program, fn), name: name}
 	info := v.info
+	// helpers that receive the whole payload are summarised first
+	ast.Inspect(fn.Decl.Body, func(n ast.Node) bool {
+		if call, ok := n.(*ast.CallExpr); ok {
+			if f := core.CalleeFunc(info, call); f != nil && f.Pkg() == fn.Obj.Pkg() && len(call.Args) == 1 && objOf(info, call.Args[0]) == v.d {
+				v.summary(call)
+			}
+		}
+		return true
+	})
 	acc := v.accesses()
 	kinds := map[string][]access{}
 	for _, a := range acc {
 		kinds[a.kind] = append(kinds[a.kind], a)
+	}
+	// reads done inside a summarised helper play their role too (they are guarded there)
+	valRole := func(x ast.Expr) string { // x is a local holding a value the helper decoded
+		if call, idx, ok := v.tupleDef(objOf(info, strip(info, x))); ok {
+			if sum := v.summary(call); sum != nil {
+				return sum.vals[idx]
+			}
+		}
+		return ""
+	}
+	for _, sum := range v.helpers {
+		if sum != nil {
+			for _, a := range sum.acc {
+				kinds[a.kind] = append(kinds[a.kind], a)
+			}
+		}
 	}
 	// offsets
 	hasVer := len(kinds["ver-slice"]) > 0 || len(kinds["ver-lo"]) > 0 && len(kinds["ver-hi"]) > 0
@@ -818,7 +624,11 @@ func verifier(e *env, fn *core.Fn) {
 		}
 		c.Failf("R3.verify", key("offsets"), kinds["bad"][0].e.Pos(), "the trailer is version(2, at len-10) + CRC(8, at len-8) and the CRC covers d[:len-8]; found %s: the wrong bytes are compared, so intact payloads are rejected or corrupted ones accepted", strings.Join(ds, ", "))
 	case len(kinds["unknown"]) > 0 || !hasVer || len(kinds["crc-slice"]) == 0:
-		c.Undecidedf("R3.verify", key("offsets"), fn.Decl.Pos(), "cannot resolve every access to the payload relative to its length")
+		var uk []string
+		for _, a := range kinds["unknown"] {
+			uk = append(uk, a.desc)
+		}
+		c.Undecidedf("R3.verify", key("offsets"), fn.Decl.Pos(), "cannot resolve every access to the payload relative to its length (%s; version read: %v, stored CRC read: %v)", strings.Join(uk, ", "), hasVer, len(kinds["crc-slice"]) > 0)
 	default:
 		c.Okf("R3.verify", key("offsets"), fn.Decl.Pos(), "version at len-10, CRC at len-8, digest over d[:len-8] (%d accesses)", len(acc))
 	}
@@ -903,6 +713,9 @@ func verifier(e *env, fn *core.Fn) {
 	switch s := kinds["covered"]; {
 	case len(s) > 0 && s[0].call != nil:
 		digCall = s[0].call
+		if sc := v.hashObject(s[0].call); sc != nil {
+			digCall = sc
+		}
 		c.Okf("R3.verify", key("digest-covers"), digCall.Pos(), "the digest is %s over d[:len-8], a one-shot function checked under R2", core.FuncName(core.CalleeFunc(info, digCall)))
 	case len(anyDigest) == 0:
 		c.Failf("R3.verify", key("digest-covers"), fn.Decl.Pos(), "%s never recomputes the CRC-64 of the payload: a payload altered in any byte is accepted", name)
@@ -916,6 +729,9 @@ func verifier(e *env, fn *core.Fn) {
 		return
 	}
 	isVer := func(x ast.Expr) bool {
+		if valRole(x) == "ver" {
+			return true
+		}
 		x = origin(info, fn.Decl.Body, x)
 		hit := false
 		ast.Inspect(x, func(n ast.Node) bool {
@@ -935,8 +751,19 @@ func verifier(e *env, fn *core.Fn) {
 		if !isBin || be.Op != token.EQL && be.Op != token.NEQ || crcCall == nil || digCall == nil {
 			return false, false
 		}
-		l, r := origin(info, fn.Decl.Body, be.X), origin(info, fn.Decl.Body, be.Y)
-		if l == ast.Expr(crcCall) && r == ast.Expr(digCall) || l == ast.Expr(digCall) && r == ast.Expr(crcCall) {
+		role := func(e ast.Expr) string {
+			if r := valRole(e); r != "" {
+				return r
+			}
+			switch o := origin(info, fn.Decl.Body, e); {
+			case o == ast.Expr(crcCall):
+				return "crc"
+			case o == ast.Expr(digCall):
+				return "dig"
+			}
+			return ""
+		}
+		if l, r := role(be.X), role(be.Y); l == "crc" && r == "dig" || l == "dig" && r == "crc" {
 			return be.Op == token.EQL, true
 		}
 		return false, false
@@ -975,12 +802,9 @@ func verifier(e *env, fn *core.Fn) {
 		}
 		return false, false
 	}
-	anyCrcAtom, anyVerAtom := false, false
+	anyVerAtom := false
 	ast.Inspect(fn.Decl.Body, func(n ast.Node) bool {
 		if x, ok := n.(ast.Expr); ok {
-			if _, ok := crcAtom(x); ok {
-				anyCrcAtom = true
-			}
 			if be, ok := x.(*ast.BinaryExpr); ok && (isVer(be.X) || isVer(be.Y)) {
 				switch be.Op {
 				case token.EQL, token.NEQ, token.LSS, token.GTR, token.LEQ, token.GEQ:
@@ -999,8 +823,6 @@ func verifier(e *env, fn *core.Fn) {
 			c.Okf("R3.verify", key("mismatch-rejected"), pos, "success only when stored CRC == digest")
 		case invC:
 			c.Check("R3.verify", key("mismatch-rejected"), pos, false, name+" succeeds exactly when the stored CRC DIFFERS from the digest: every intact payload is rejected, altered ones accepted", wC...)
-		case crcCall != nil && digCall != nil && !anyCrcAtom && !inBinary(fn.Decl.Body, info, crcCall, digCall):
-			c.Check("R3.verify", key("mismatch-rejected"), pos, false, name+" reads the stored CRC and computes the digest but never compares them: an altered payload is accepted", wC...)
 		default:
 			c.Undecidedf("R3.verify", key("mismatch-rejected"), pos, "cannot see how stored CRC and digest are compared")
 		}
@@ -1062,46 +884,51 @@ func (v *verif) shiftApplied(e ast.Expr) (int64, bool) {
 	return 0, false
 }
 
-// inBinary: the value of one of the calls (directly or through a
-// single-assignment local) is an operand of some binary expression.
-func inBinary(root ast.Node, info *types.Info, calls ...*ast.CallExpr) bool {
-	hit := false
-	ast.Inspect(root, func(n ast.Node) bool {
-		if be, ok := n.(*ast.BinaryExpr); ok {
-			for _, side := range []ast.Expr{be.X, be.Y} {
-				o := origin(info, root, side)
-				for _, c := range calls {
-					if o == ast.Expr(c) {
-						hit = true
-					}
-				}
+// hashObject: call is h.Write(x) on a local h that holds a fresh digest from a
+// checked constructor and is written exactly once; it returns the h.Sum64()
+// call that yields the digest of x, nil otherwise.
+func (v *verif) hashObject(call *ast.CallExpr) *ast.CallExpr {
+	sel, ok := ast.Unparen(call.Fun).(*ast.SelectorExpr)
+	if !ok || sel.Sel.Name != "Write" || len(call.Args) != 1 {
+		return nil
+	}
+	h := objOf(v.info, sel.X)
+	if h == nil {
+		return nil
+	}
+	rhs, other := defsOf(v.info, v.fn.Decl.Body, h)
+	if len(rhs) != 1 || other != 0 || rhs[0] == nil {
+		return nil
+	}
+	if nc, ok := ast.Unparen(rhs[0]).(*ast.CallExpr); !ok || !v.e.isNew(core.CalleeFunc(v.info, nc)) {
+		return nil
+	}
+	writes, var64 := 0, (*ast.CallExpr)(nil)
+	escapes := false
+	ast.Inspect(v.fn.Decl.Body, func(n ast.Node) bool {
+		c, ok := n.(*ast.CallExpr)
+		if !ok {
+			return true
+		}
+		if s2, ok := ast.Unparen(c.Fun).(*ast.SelectorExpr); ok && objOf(v.info, s2.X) == h {
+			switch s2.Sel.Name {
+			case "Write":
+				writes++
+			case "Sum64":
+				var64 = c
+			default:
+				escapes = true
+			}
+		}
+		for _, a := range c.Args {
+			if objOf(v.info, a) == h {
+				escapes = true
 			}
 		}
 		return true
 	})
-	return hit
-}
-
-// predBody looks through a call to a same-package function whose body is a
-// single `return <expr>`: it returns that expression and, per parameter
-// object, the argument passed.
-func predBody(c *core.Ctx, from *core.Fn, call *ast.CallExpr) (ast.Expr, map[types.Object]ast.Expr) {
-	f := core.CalleeFunc(from.Pkg.TypesInfo, call)
-	if f == nil || f.Pkg() != from.Obj.Pkg() {
-		return nil, nil
+	if writes != 1 || escapes {
+		return nil
 	}
-	hf := c.FnOf(f)
-	if hf == nil || hf.Decl.Body == nil || len(hf.Decl.Body.List) != 1 {
-		return nil, nil
-	}
-	r, ok := hf.Decl.Body.List[0].(*ast.ReturnStmt)
-	ps := f.Type().(*types.Signature).Params()
-	if !ok || len(r.Results) != 1 || ps.Len() != len(call.Args) {
-		return nil, nil
-	}
-	args := map[types.Object]ast.Expr{}
-	for i := 0; i < ps.Len(); i++ {
-		args[ps.At(i)] = call.Args[i]
-	}
-	return r.Results[0], args
+	return var64
 }
